@@ -217,11 +217,11 @@ type Runner struct {
 	// Delivered holds the well-formed transactions passed to DeliverTx, in order (replay targets)
 	Delivered [][]byte
 	ROEntropy int64
-	Halted  string
+	Halted    string
 	// TM is a real Tendermint validator set to which every returned update batch is applied
 	// with Tendermint's own UpdateWithChangeSet (oracle for "can be applied", C05)
-	TM *tmtypes.ValidatorSet
-	Tick    int64 // current block time in ticks
+	TM   *tmtypes.ValidatorSet
+	Tick int64 // current block time in ticks
 }
 
 func NewRunner(c Cfg) (*Runner, error) {
